@@ -334,6 +334,41 @@ theorem finalize_open (s : WState) (h : s.opened ≠ []) :
   · rfl
   · simp [h]
 
+/-- **C09.must_refuse** — the refusals the property lists, each answered with an error (and, by
+    `refused_noop`, without any effect): a call on an id that is not open (never issued, or ended),
+    a name already used, a name longer than the limit, finalization while a file is open, anything
+    but `flush` after finalization. -/
+theorem must_refuse (s : WState) :
+    (∀ id size src, alookup id s.opened = none → (Writer.step P H s (.append id size src)).2.1 = .err .state) ∧
+    (∀ id, alookup id s.opened = none → (Writer.step P H s (.end_ id)).2.1 = .err .state) ∧
+    (∀ name, s.finalized = false → (nameLookup name s.names).isSome = true →
+      (Writer.step P H s (.start name)).2.1 = .err .dupName ∧
+      ∀ size src, (Writer.step P H s (.add name size src)).2.1 = .err .dupName) ∧
+    (∀ name, s.finalized = false → (nameLookup name s.names).isSome = false → P.nameMax < name.length →
+      (Writer.step P H s (.start name)).2.1 = .err .nameTooLong ∧
+      ∀ size src, (Writer.step P H s (.add name size src)).2.1 = .err .nameTooLong) ∧
+    (s.opened ≠ [] → (Writer.step P H s .finalize).2.1 = .err .state) := by
+  refine ⟨?_, ?_, ?_, ?_, ?_⟩
+  · intro id size src h
+    simp only [Writer.step, stepAppend, h]; split <;> rfl
+  · intro id h
+    simp only [Writer.step, stepEnd, h]; split <;> rfl
+  · intro name hf h
+    constructor
+    · simp [Writer.step, stepStart, hf, h]
+    · intro size src; simp [Writer.step, stepAdd, stepStart, hf, h]
+  · intro name hf h hl
+    constructor
+    · simp [Writer.step, stepStart, hf, h, hl]
+    · intro size src; simp [Writer.step, stepAdd, stepStart, hf, h, hl]
+  · intro h
+    rw [finalize_open P H s h]
+
+/-- an ended id is not open any more: `end_` erases it (ids are unique in `opened`: one entry per
+    `start`, `nextId` strictly increasing — the invariant of `Proofs/WriterInv`) -/
+example : alookup 0 (Writer.step Params.prod (fun _ => [])
+    { opened := [(0, [])], info := [(0, ⟨[0], 0, 0⟩)], nextId := 1 } (.end_ 0)).1.opened = none := by decide
+
 /-! Non-vacuity: concrete states meeting the hypotheses. -/
 example : Refusal (Writer.step Params.prod (fun _ => []) ({ names := [([97], 0)] } : WState) (.start [97])).2.1 := by
   decide
